@@ -132,6 +132,12 @@ PURE_CONTAINER_METHODS = {"as_ref", "as_slice", "as_str", "borrow", "to_vec", "t
 
 CURRENT = None
 
+VALUE_KIND_PREDICATES = {
+    "is_array": ("Array",), "is_object": ("Object",), "is_string": ("String",), "is_number": ("Number",), "is_boolean": ("Bool",),
+    "is_null": ("Null",), "is_map": ("Map",), "is_text": ("Text",), "is_bytes": ("Bytes",), "is_bool": ("Bool",), "is_integer": ("Integer",),
+    "is_float": ("Float",), "is_tag": ("Tag",),
+}
+
 
 def has_opaque(v, depth=0):
     """does an abstract value contain a part that could not be evaluated?"""
@@ -946,6 +952,20 @@ class Interp:
                     return ("list", [x for _, x, r in res if self.truth(r)])
                 if m == "map":
                     return ("list", [r for _, _, r in res])
+                if m == "flat_map":
+                    out = []
+                    for _, _, r in res:
+                        if isinstance(r, tuple) and r[:1] == ("list",):
+                            out.extend(r[1])
+                        elif isinstance(r, (list, MutList)) and getattr(r, "kind", "vec") != "str":
+                            out.extend(r)
+                        elif isinstance(r, tuple) and r and r[0] in ("Some", "Ok") and len(r) == 2:
+                            out.append(r[1])
+                        elif isinstance(r, tuple) and r and r[0] in ("None", "Err"):
+                            pass
+                        else:
+                            raise Unknown("flat_map closure result %r" % (r,))
+                    return ("list", out)
                 if m == "filter_map":
                     return ("list", [r[1] for _, _, r in res if isinstance(r, tuple) and r[0] == "Some"])
                 if m == "retain":
@@ -1054,6 +1074,8 @@ class Interp:
                     recv.extend(a0)
                     if m == "append" and isinstance(a0, MutList):
                         del a0[:]
+                elif a0 is OPAQUE and m in ("extend", "append", "extend_from_slice"):
+                    raise Unknown(".%s() of a value that could not be evaluated" % m)
                 else:
                     recv.append(a0)
                 return ("tuple", [])
@@ -1340,6 +1362,10 @@ class Interp:
                 return recv
             r = self.call_closure(args[0], [recv[1]])
             return ("Some", r) if m == "map" else r
+        if isinstance(recv, tuple) and len(recv) == 3 and recv[0] == "enum" and isinstance(recv[1], str) and m in VALUE_KIND_PREDICATES \
+                and recv[1].split("::")[-2:-1] == ["Value"] and not e["a"]:
+            # serde_json::Value / the crate's CBOR Value: kind predicates
+            return recv[1].split("::")[-1] in VALUE_KIND_PREDICATES[m]
         if isinstance(recv, tuple) and recv and recv[0] in ("Some", "None", "Ok", "Err") and m in MUTATING_OPTION_METHODS:
             raise Unknown("method .%s() writes through an Option/Result place and is not modelled here" % m)
         if isinstance(recv, (MutList, PyMap)) and m not in PURE_CONTAINER_METHODS:
